@@ -1099,6 +1099,31 @@ func (p *parser) parseClauses(fc *FuncContract) error {
 				fc.Clauses = append(fc.Clauses, &Clause{Kind: "storeassert", Call: tn + "." + fn, E: e, Props: props, Label: lab, Text: p.textSince(start)})
 				continue
 			}
+			if p.isID("load") { // at load T.f setflag <pathflag> <expr over value> | at load T.f mark <pathflag>
+				p.next()
+				tn := p.next().s
+				if err := p.expectOp("."); err != nil {
+					return err
+				}
+				fn := p.next().s
+				if p.isID("mark") {
+					p.next()
+					fc.Clauses = append(fc.Clauses, &Clause{Kind: "loadmark", Call: tn + "." + fn, Label: p.next().s})
+					continue
+				}
+				if !p.isID("setflag") {
+					return p.errf("expected setflag or mark after at load T.f")
+				}
+				p.next()
+				fl := p.next().s
+				start := p.peek().pos
+				e, err := p.parseExpr(0)
+				if err != nil {
+					return err
+				}
+				fc.Clauses = append(fc.Clauses, &Clause{Kind: "loadsetflag", Call: tn + "." + fn, Label: fl, E: e, Text: p.textSince(start)})
+				continue
+			}
 			if !p.isID("call") {
 				return p.errf("expected 'call' after 'at'")
 			}
